@@ -293,10 +293,22 @@ func runC16(c *Ctx, faults bool) {
 			if t.Choose(2, "checkout-kind") == 0 {
 				w.Git(u.dir, "checkout", "-q", "--", p)
 			} else {
+				// files with uncommitted changes are written back by `git
+				// stash pop`, after which no LFS hook runs: their write bit
+				// is git's doing and not judged until the next lock/unlock
+				var dirtyBefore []string
+				for _, lp := range lockPaths {
+					if isDirty(w, u.dir, lp) {
+						dirtyBefore = append(dirtyBefore, lp)
+					}
+				}
 				w.Git(u.dir, "stash", "push", "-q")
 				w.Git(u.dir, "checkout", "-q", "-B", "side")
 				w.Git(u.dir, "checkout", "-q", "main")
 				w.Git(u.dir, "stash", "pop", "-q")
+				for _, lp := range dirtyBefore {
+					u.bitStale[lp] = true
+				}
 			}
 		case 9: // modify a file locked by the other user (forcing the write bit), commit
 			if l, ok := locks.Table[p]; ok && l.Owner.Name == other.name && !isAnyDirty(w, u.dir) {
@@ -468,6 +480,13 @@ func (c *Ctx) pushWithLocks(w *World, locks *sim.Locks, u, other *lockUser, remo
 	listed := c.sawEvent(locks, evBefore, "listed-verify", u.name, "")
 	if strings.TrimSpace(ahead) == "0" {
 		return
+	}
+	// (a server that answered 404/501 to an earlier verification made the
+	// client switch the setting off for this endpoint: read it as it is now)
+	clientURL, _ := w.GitQ(u.dir, "config", "lfs.url")
+	if cur, _ := w.GitQ(u.dir, "config", "--get-urlmatch", "lfs.locksverify", strings.TrimSpace(clientURL)); strings.TrimSpace(cur) != "true" && verifySetting == "true" {
+		c.Probe("locksverify-switched-off-by-the-client")
+		verifySetting = strings.TrimSpace(cur)
 	}
 	if len(touchesForeign) > 0 && verifySetting == "true" {
 		c.Probe("push-touching-foreign-lock")
